@@ -7,5 +7,7 @@ pub fn run(tier: &str, seed: u64, dir: &str) {
     crate::conv_cie::run_family(&mut out, &mut rng, tier);
     crate::conv_rgb::run_family(&mut out, &mut rng, tier);
     crate::conv_ok::run_family(&mut out, &mut rng, tier);
+    // coverage audit (AUDIT_C02.md): configurations, entry points and forms the family modules do not drive; last, so that the earlier case stream is unchanged
+    crate::c02_more::run_more(&mut out, &mut rng, tier);
     out.finish(dir, "");
 }
